@@ -2,14 +2,14 @@
 PENDING = {}
 
 add("C16",
-    "property-based fuzzing (Hypothesis-seeded generators: random text, token soup, grammar derivations, corpus mutations, model programs) against a totality oracle; failures bucketed by root cause and ddmin-shrunk",
+    "property-based fuzzing (Hypothesis-seeded generators: random text, token soup, grammar derivations, corpus mutations, model programs) against a totality oracle (no exception, located non-synthetic messages whose rendering quotes the line and column they name); failures bucketed by root cause and ddmin-shrunk",
     "Generated-input search over source sets for uncaught exceptions, non-termination, malformed/ill-located/synthetic diagnostics and rendering failures across front end, back end, format_errors and the embossc CLI; finds shallow and pass-interaction crashes, does not prove absence.",
     "Trusts: Python runtime; a 120 s per-case limit as the termination judge; position (n+1,1) counts as inside an n-line file.",
     "DESIGN.md §4 C16")
 
 add("C10",
     "property-based testing (Hypothesis text strategy + seeded structured generators) against an independent reference tokenizer compiled from doc/grammar.md, plus coverage/position/indentation invariants and prose-derived classification; atheris coverage-guided tier in thorough",
-    "Differential + invariant search over generated source texts (token soup, look-alike lexemes, mixed indentation, all Unicode line terminators, mutated corpus). Explores ~10^4 (quick) to ~10^5-10^6 (thorough) texts; finds disagreement with the documented pattern table or broken positions; not exhaustive.",
+    "Differential + invariant search over generated source texts (token soup, look-alike lexemes, mixed indentation, all Unicode line terminators, invisible characters such as a byte-order mark, mutated corpus; results of two calls share no state). Explores ~10^4 (quick) to ~10^5-10^6 (thorough) texts; finds disagreement with the documented pattern table or broken positions; not exhaustive.",
     "Trusts: Python's re module and str.splitlines/isspace as the definition of lines and whitespace; doc/grammar.md as the specification of patterns.",
     "DESIGN.md §4 C10")
 
@@ -26,43 +26,43 @@ add("C08",
     "DESIGN.md §4 C08")
 
 add("C11",
-    "property-based testing: seeded generators (noisy renderings of random grammar derivations covering every production, corpus files and parse-preserving mutations) x indent widths, against round-trip (two-sided token equivalence, IR equality), idempotence and self-check-agreement oracles; the emboss-format program on several files in place; ddmin shrinking",
+    "property-based testing: seeded generators (noisy renderings of random grammar derivations covering every production, corpus files and parse-preserving mutations) x indent widths, against round-trip (two-sided token equivalence, IR equality), idempotence and self-check-agreement oracles; blocks of comment-only lines with repeated and framing lines; the emboss-format program on several files in place (an exception there is a verdict); ddmin shrinking",
     "Generated-input search over parseable texts x indent widths 1..8 for exceptions, token/IR changes, unparseable output, non-idempotence and self-check disagreement; ~3*10^3 (quick) to ~3*10^5 (thorough) (text,width) cases.",
     "Trusts: tokenizer/parser/module_ir.build_ir as the meaning of 'parses to the same module' (they are checked by C10/C09/C08).",
     "DESIGN.md §4 C11")
 
 add("C17",
-    "metamorphic/differential property-based testing over schedules: generated and literal source sets compiled in fresh subprocesses under 6-8 PYTHONHASHSEEDs x batch orders x repetition, a Hypothesis RuleBasedStateMachine for in-process histories (compiler caches left alone; literal A-B-A history), and a CLI sample (embossc vs front|back incl. back-end-only rejections, swapped import dirs, reuse of an output directory across fresh processes); oracle = byte equality",
+    "metamorphic/differential property-based testing over schedules: generated and literal source sets compiled in fresh subprocesses under 6-8 PYTHONHASHSEEDs x batch orders x repetition, a Hypothesis RuleBasedStateMachine for in-process histories (compiler caches left alone; literal A-B-A history; every output also compared with that of a pristine forked process; a family of source sets reusing the same file, type and field names for different facts), and a CLI sample (embossc vs front|back incl. back-end-only rejections, swapped import dirs, reuse of an output directory across fresh processes); oracle = byte equality",
     "Searches for any dependence of diagnostics, IR JSON or header on hash seed, batch order, repetition, import-dir order or process split, over ~150 (quick) to ~700 (thorough) source sets x 8-10 schedules plus stateful histories; cannot exclude dependence on seeds/inputs not tried.",
     "Trusts: equality of formatted strings; anonymous-field numbering is canonicalised only where several modules share a process (as the property allows).",
     "DESIGN.md §4 C17")
 
 add("C18",
-    "round-trip property-based testing: IRs of corpus, accepted corpus mutations and generated modules at every stop_before_step through to_json/from_json with ==, a type-strict field walker, re-serialisation and header equality; CLI two-program path vs embossc on a sample with and without --[no-]cc-enum-traits; source sets whose modules define the same names",
+    "round-trip property-based testing: IRs of corpus, accepted corpus mutations and generated modules at every stop_before_step through to_json/from_json with ==, a type-strict field walker, re-serialisation and header equality; CLI two-program path vs embossc on a sample with and without --[no-]cc-enum-traits; source sets whose modules define the same names; each program of the split pipeline under its own hash seed; non-canonical spellings of the main file; a module with many imports",
     "Checks from_json(to_json(ir)) == ir (also type-strictly), to_json idempotence and header(ir) == header(reread ir) for ~10^3 (quick) to ~10^4 (thorough) IRs incl. all intermediate pipeline stages; the two real programs are compared with embossc on a sample.",
     "Trusts: the IR classes' own == (cross-checked by an independent walker over field specs); corpus + generators as the space of 'IRs the front end produces'.",
     "DESIGN.md §4 C18")
 
 add("C01",
-    "differential property-based testing: generated modules (embgen layout generator) compiled by the real compiler and g++, executed on generated buffers (all prefix lengths of garbage/small/boundary contents, near-Ok buffers found by search with the reference and damaged one byte at a time, extreme values of multi-byte fields, parameter values) against an independent reference interpreter (embref) + metamorphic prefix-monotonicity; always-on switch and stride families",
+    "differential property-based testing: generated modules (embgen layout generator) compiled by the real compiler and g++, executed on generated buffers (all prefix lengths of garbage/small/boundary contents, near-Ok buffers found by search with the reference and damaged one byte at a time, extreme values of multi-byte fields, parameter values) against an independent reference interpreter (embref) + metamorphic prefix-monotonicity; always-on switch, stride and parameter families; views over unsigned char, plain char and aligned storage; static min/max size constants bound every reported size",
     "Every front-end pass, the back end, the runtime and g++ are in the loop against an oracle that shares no code with them; ~50 modules x ~100 views (quick) to ~650 x ~150 (thorough). Finds wrong offsets/conditions/decodes/size/Ok logic on the explored shapes; says nothing about shapes the generator does not emit (listed in DESIGN §4 C01).",
     "Trusts: embref as an encoding of the documentation (every disagreement is triaged, DESIGN §3); g++ 12 on x86-64; arrays on truncated buffers are a recorded known finding.",
     "DESIGN.md §4 C01")
 
 add("C13",
-    "type-directed property-based testing: a typed expression generator fills every position that demands a type in a base module that must be accepted; single-rule violations (sub-expression or positional expression replaced by one of another type) must be rejected with a located, non-synthetic error and no exception",
+    "type-directed property-based testing: a typed expression generator fills every position that demands a type in a base module that must be accepted; single-rule violations (sub-expression or positional expression replaced by one of another type) must be rejected with a located, non-synthetic error and no exception, alone and as an import of the well-typed base occupying the same positions",
     "~400 (quick) to ~10^4 (thorough) well-typed bases and ~3 violations each over all typed positions and operator nestings to depth 4; finds dropped or mis-applied typing rules, crashes on ill-typed input and wrongly rejected well-typed input on the explored template; the catalogue is the one in DESIGN §4 C13.",
     "Trusts: my reading of the operator signatures in language-reference.md; small magnitudes so no other rule interferes; `<` on same-enum operands and same-enum enum values are treated as allowed (pinned by upstream unit tests).",
     "DESIGN.md §4 C13")
 
 add("C15",
-    "property-based testing over random reference digraphs realised as struct fields, enum values and import files, against an independent SCC (Kosaraju) oracle for the cycle verdict and cycle sets, and a topological/stability oracle for fields_in_dependency_order; per-case time limit for termination",
+    "property-based testing over random reference digraphs realised as struct fields (plain and type-qualified references), enum values and import files (import order shuffled), literal cycles mixing the kinds, against an independent SCC (Kosaraju) oracle for the cycle verdict and cycle sets, and a topological/stability oracle for fields_in_dependency_order; per-case time limit for termination",
     "~10^3 (quick) to ~2*10^4 (thorough) graphs of 2-9 nodes with every edge carrier (start, size, array length, condition, value, type argument); checks cycle error iff cycle, reported name sets == SCCs, order is a stable topological permutation, and termination.",
     "Trusts: my SCC implementation; the intended graph equals the compiler's view of references (edges are only the names I print); 60 s limit as termination judge.",
     "DESIGN.md §4 C15")
 
 add("C14",
-    "catalogue-driven property-based testing: generated boundary-heavy realisable modules must be accepted; one documented-rule violation per base (widths, enum range/sign/maximum_bits, bits size/members, array elements, size mismatches, byte-order rules, attribute scope/duplication/values, reserved words) must be rejected without exception",
+    "catalogue-driven property-based testing: generated boundary-heavy realisable modules must be accepted; one documented-rule violation per base (widths, enum range/sign/maximum_bits, bits size/members, array elements, size mismatches, byte-order rules, attribute scope/duplication/values, reserved words, parameter widths, arrays of byte-oriented types in bits, numbers in run-time sized fields) must be rejected without exception",
     "~600 (quick) to ~10^4 (thorough) bases with randomised widths/values at the boundaries and ~2 violations each from a catalogue of ~70 rules; finds unenforced or over-enforced layout/attribute rules and crashes; rules outside the catalogue are not covered.",
     "Trusts: the catalogue as a faithful reading of doc/language-reference.md (fixed-size type in larger field counts as a violation, pinned by constraints_test).",
     "DESIGN.md §4 C14")
@@ -74,7 +74,7 @@ add("C12",
     "DESIGN.md §4 C12")
 
 add("C05",
-    "property-based testing with an independent evaluator: generated expression-heavy modules; every Expression node of the compiler's IR is evaluated under corner/special/random environments and compared with the inferred min/max/modulus/remainder/constant annotations; 64-bit gate checked by evaluation; tightness by exhaustive corner search on the variable-once fragment",
+    "property-based testing with an independent evaluator: generated expression-heavy modules; every Expression node of the compiler's IR is evaluated under corner/special/random environments and compared with the inferred min/max/modulus/remainder/constant annotations; 64-bit gate checked by evaluation; tightness by exhaustive corner search on the variable-once fragment; import isolation (inferred types of a module are the same alone and next to a sibling module reusing its names)",
     "~200 (quick) to ~5*10^3 (thorough) accepted modules, ~70 expression nodes each, 100-600 environments per node (all 2^k corners when k<=9); finds unsound transfer functions (sign, swapped min/max, modulus), wrong constant folding, unsound gate decisions and loose bounds on the tight fragment.",
     "Trusts: my evaluator of the IR's operator semantics; leaf ranges of UInt/Int/Bcd by width; run-time = not under a constant-typed operator (as constraints.py defines it).",
     "DESIGN.md §4 C05")
@@ -86,7 +86,7 @@ add("C02",
     "DESIGN.md §4 C02")
 
 add("C03",
-    "differential property-based testing of writes: generated modules with every writable field kind (struct/bits/anonymous/nested, aliases, invertible virtuals, [requires]), random and truncated buffers, boundary values and 1-6 step write sequences through plain and MakeAligned views; CouldWriteValue / TryToWrite / full buffer / read-back compared with the embref write model",
+    "differential property-based testing of writes: generated modules with every writable field kind (struct/bits/anonymous/nested, aliases, invertible virtuals, [requires]), random and truncated buffers, boundary values and 1-6 step write sequences through plain and MakeAligned views, through the text reader (numbers the C++ parameter types cannot carry) and with arguments passed as the narrowest integer type; virtual fields over [requires] fields, anonymous-bits members and other virtual fields; CouldWriteValue / TryToWrite / full buffer / read-back compared with the embref write model",
     "~30 modules x ~150 write sequences (quick) to ~400 x 400 (thorough): exact accept/reject boundaries for all widths, byte-exact neighbour preservation in read-modify-write, nothing changed on failure, algebraic inverse of write inference reads back.",
     "Trusts: embref write model; values passed within the argument type of each method (Bcd/enum/virtual methods take their ValueType by value); writability of virtual fields read from the compiler's IR.",
     "DESIGN.md §4 C03")
@@ -98,15 +98,15 @@ add("C19",
     "DESIGN.md §4 C19")
 
 add("C20",
-    "differential property-based testing: layout-generator structs compiled with g++; buffer pairs (identical, every single-bit flip of Ok buffers, different lengths, not-Ok sources, short destinations) and overlapping windows of one allocation; Equals (both directions) and TryToCopyFrom (result, destination bytes, Ok) compared with embref's logical equality / copy model",
+    "differential property-based testing: layout-generator structs compiled with g++; buffer pairs (identical, every single-bit flip of Ok buffers, different lengths, not-Ok sources, short destinations) and overlapping windows of one allocation; two views of a parameterised structure built with equal and with different arguments; Equals (both directions) and TryToCopyFrom (result, destination bytes, Ok) compared with embref's logical equality / copy model",
     "~40 modules x ~120 pair commands (quick) to ~500 modules (thorough): Equals <=> same presence and equal present physical fields recursively, symmetric, blind to padding; TryToCopyFrom succeeds exactly when source Ok and destination long enough, copies exactly the source's size with memmove semantics.",
     "Trusts: embref (already validated against the tree by C01); only parameterless top-level structs are paired.",
     "DESIGN.md §4 C20")
 
 add("C06",
-    "round-trip property-based testing: layout-generator structs with Skip/Emit marks compiled with g++; for Ok buffers and sampled option sets WriteToString -> UpdateFromText into a zeroed buffer -> WriteToString must reproduce the text; validity predicates on the text (Skip absent, Emit present, dependency order) from the model; integer text codec differentially against a Python rendering incl. malformed inputs",
+    "round-trip property-based testing: layout-generator structs with Skip/Emit marks compiled with g++; for Ok buffers and sampled option sets WriteToString -> UpdateFromText into a zeroed buffer -> WriteToString must reproduce the text; validity predicates on the text (Skip absent, Emit present, dependency order) from the model; numbers a field cannot hold must be refused by UpdateFromText; a Float structure with finite values held to the bit-exact round trip; integer text codec differentially against a Python rendering incl. malformed inputs",
     "~30 modules x ~4 Ok buffers x 5 of 18 option sets (quick), ~12x more in thorough, plus ~2600 codec cases over all 8 integer types x 3 bases x grouping; finds unreadable output, dropped/extra fields, ordering errors, wrong digits/grouping/sign handling and wrap-around on malformed numbers.",
-    "Trusts: embref for choosing Ok buffers; text equality of the second WriteToString as the read-back oracle; floats and single-line+comments output are out of scope as documented.",
+    "Trusts: embref for choosing Ok buffers; text equality of the second WriteToString as the read-back oracle; generated structs with Float fields and single-line+comments output are out of scope as documented (a fixed Float structure is checked).",
     "DESIGN.md §4 C06")
 
 add("C04",
@@ -116,7 +116,7 @@ add("C04",
     "DESIGN.md §4 C04")
 
 add("C07",
-    "property-based testing with the C++ compiler as oracle: accepted modules from every generator (layout, write, text, enum, physical-boundary, typed, scope-tree, import pairs, accepted mutants), the repository corpus and an identifier-shape catalogue are compiled in-process; the emitted header plus an IR-derived full-instantiation driver (every documented member named, every front-end constant static_asserted or checked at run time) is compiled under g++ -std=c++11/14/17 (clang++ in thorough), with and without enum traits, and linked from two translation units and run",
+    "property-based testing with the C++ compiler as oracle: accepted modules from every generator (layout, write, text, enum, physical-boundary, typed, scope-tree, import pairs, accepted mutants), the repository corpus and an identifier-shape catalogue (13 namespace forms incl. components spelled like runtime namespaces, applied across all sources) are compiled in-process; the emitted header plus an IR-derived full-instantiation driver (every documented member named, every front-end constant static_asserted or checked at run time) is compiled under g++ -std=c++11/14/17 (clang++ in thorough), with and without enum traits, and linked from two translation units and run",
     "~90 accepted modules x 4 configurations (quick) to ~1000 x 7 (thorough); finds emitted code that is ill-formed C++ under some standard, members that fail to instantiate, missing inline/ODR problems at link time, constants that differ from the front end's, and user names that collide with generated identifiers (recorded as known findings, excluded by construction afterwards).",
     "Trusts: g++ 12 / clang++ 14 on x86-64 Linux as the definition of valid C++; cpp-reference.md as the list of members to name; the IR's own annotations as 'the values the front end computed' (their soundness is C05's subject).",
     "DESIGN.md §4 C07")
